@@ -174,6 +174,8 @@ class History:
         self._start_errors = {}
         self._user_wrapped = set()
         self._failed_group_scopes = set()
+        self._dirty_finish = set()
+        self._own_cancel_finish = set()
         self._group_scope = group_scope
         pre_started_end: set[int] = set()
         enter_info: dict[int, tuple] = {}         # sid -> (task, ncancel at entry, step)
@@ -217,6 +219,9 @@ class History:
                         self._user_wrapped.add(child_group[t])
                     if t in base_scope and prev["tasks"][t]["cur"] != base_scope[t] and t in child_group:
                         tainted_groups.add(child_group[t])    # ended with scopes still open: API misuse
+                        self._dirty_finish.add(t)
+                    if hb and not hb[0] and len(hb[1]) == 1 and t in base_scope and hb[1][0] == 1000 + base_scope[t]:
+                        self._own_cancel_finish.add(t)        # its handle scope absorbs this: the task "returns"
                     if t in via_start and t not in started_val:
                         pre_started_end.add(t)
                         self.flags.add("child_ended_before_started")
@@ -439,9 +444,11 @@ class History:
             cancels = [x for x in res[2] if is_cancel_code(x)]
             if ch in started_val:
                 self.flags.add("start_raised_after_started")
-            if ch in finished_with and ch not in started_val and not cancels:
+            if ch in finished_with and ch not in started_val and not cancels and ch not in self._dirty_finish:
                 self.flags.add("start_child_failed_first")
                 kind, val = finished_with[ch]
+                if ch in self._own_cancel_finish:
+                    kind, val = "ret", 0
                 if kind == "ret" and res[2] != [3000]:
                     self.v("C07", f"step {i}: child {ch} returned before started() but start() raised {res[2]} instead of RuntimeError")
                 if kind == "exc" and val is not None and sorted(res[2]) != sorted(val[1]):
